@@ -101,7 +101,7 @@ class C05(Check):
     floor_nontrivial = 20
     required_counters = ("fakepool_runs", "realpool_runs", "results_compared", "schedules_not_identity", "realpool_orders_permuted")
     shards = (14, 16)
-    budget = (100, 700)
+    budget = (300, 700)
 
     def cases(self, tier, seed):
         q = tier == "quick"
